@@ -295,7 +295,7 @@ class Input(ContextManager["Input"]):
         stdin_ready_for_read, event = self._wait_for_read_ready_or_timeout(
             time_until_check
         )
-        if event:
+        if event is not None:
             return event
         if self.queued_scheduled_events:
             # events may have been scheduled (from a callback) while we were waiting
